@@ -300,6 +300,13 @@ class Check:
                     put(os.path.relpath(os.path.join(dp, n), bd))
         return out
 
+    @staticmethod
+    def pathfree(b: bytes, root: str) -> bytes:
+        """For the determinism digest only: the scratch path, and the digests meson derives from command lines that contain it
+        (names of meson_exe_*.dat wrappers), differ from run to run of the harness."""
+        import re
+        return re.sub(rb'(meson_exe_[^ /]*?_)[0-9a-f]{40}(\.dat)', rb'\1<HASH>\2', b.replace(root.encode(), b'<ROOT>'))
+
     def run(self, sc: T.Dict[str, T.Any]) -> T.Dict[str, T.Any]:
         root = E.mkscratch('c06')
         try:
@@ -428,7 +435,7 @@ class Check:
             first_known.update(basekw)
             first_known['extra_known'] = sorted(set(known_sigs))
             return first_known
-        return R.ok(summary={'files_compared': sorted(base)[:12], 'variants': sc['variants'][:3]}, trace_digest=prng.digest(sorted(hashlib.sha256(b.replace(root.encode(), b'<ROOT>')).hexdigest() for b in base.values())), **basekw)
+        return R.ok(summary={'files_compared': sorted(base)[:12], 'variants': sc['variants'][:3]}, trace_digest=prng.digest(sorted(hashlib.sha256(self.pathfree(b, root)).hexdigest() for b in base.values())), **basekw)
 
     @staticmethod
     def classify(rel: str) -> str:
